@@ -106,6 +106,38 @@ fn produce(a: &Art, env: &Env) -> Result<Produced, String> {
 	}
 }
 
+/// Another artefact generated with the *key objects* of `env` (but its own parameters and, where
+/// it has one, its own issuer certificate built around the shared issuer key): the kind of
+/// unrelated call that may precede or interleave with the observed one.
+fn produce_sharing_keys(a: &Art, env: &Env) -> Result<(), String> {
+	match a {
+		Art::Cert(c) => {
+			let params = mk::cert_params(&c.spec)?;
+			match (&c.issuer, &env.issuer) {
+				(Some(i), Some((_, ik))) => {
+					let ic = mk::cert_params(&i.spec)?.self_signed(ik).map_err(|e| e.to_string())?;
+					let _ = params.signed_by(&env.subject_key, &ic, ik);
+				},
+				_ => {
+					let _ = params.self_signed(&env.subject_key);
+				},
+			}
+		},
+		Art::Csr(c) => {
+			let _ = mk::cert_params(&c.spec)?.serialize_request(&env.subject_key);
+		},
+		Art::Crl(c) => {
+			let key = match &env.issuer {
+				Some((_, ik)) => ik,
+				None => &env.subject_key,
+			};
+			let ic = mk::cert_params(&c.issuer.spec)?.self_signed(key).map_err(|e| e.to_string())?;
+			let _ = mk::crl_params(&c.crl)?.signed_by(&ic, key);
+		},
+	}
+	Ok(())
+}
+
 fn deterministic_scheme(k: &KeySpec) -> bool {
 	k.alg == KeyAlg::Ed25519 || k.is_rsa()
 }
@@ -187,25 +219,26 @@ pub fn check_history(h: &HistoryCase, info: &mut CaseInfo) -> Result<(), String>
 	classes(&h.target, info);
 	info.nontrivial = info.nontrivial || !h.prefix.is_empty();
 	info.class(format!("prefix-len:{}", h.prefix.len().min(4)));
+	// reference: the call on fresh key objects with no history at all
+	let base = produce(&h.target, &env_for(&h.target)?)?;
+	// the observed call on key objects that have a history of other calls behind them
 	let env = env_for(&h.target)?;
-	let base = produce(&h.target, &env)?;
-	// unrelated calls, some sharing the target's keys and issuer
+	let before = snapshot(&env);
 	for (i, p) in h.prefix.iter().enumerate() {
-		if i % 2 == 0 {
-			let _ = produce(p, &env_for(p)?);
-		} else {
-			// same environment where the shapes fit
-			let same_shape = matches!((&h.target, p), (Art::Cert(a), Art::Cert(b)) if a.issuer.is_some() == b.issuer.is_some())
-				|| matches!((&h.target, p), (Art::Csr(_), Art::Csr(_)) | (Art::Crl(_), Art::Crl(_)));
-			if same_shape {
-				let _ = produce(p, &env);
-			} else {
+		match i % 3 {
+			0 => {
 				let _ = produce(p, &env_for(p)?);
-			}
+			},
+			_ => {
+				// other parameters (other key-identifier methods, other issuer certificates) on the
+				// same key objects
+				let _ = no_panic(|| produce_sharing_keys(p, &env));
+			},
 		}
 	}
 	let after = produce(&h.target, &env)?;
-	compare(&base, &after, &env.signer, "after a history of other API calls")
+	compare(&base, &after, &env.signer, "after a history of other API calls on the same key objects")?;
+	unchanged(&before, &snapshot(&env))
 }
 
 #[derive(Clone, Debug, Serialize, Deserialize, PartialEq, Eq, Hash)]
@@ -213,6 +246,9 @@ pub struct ThreadCase {
 	pub target: Art,
 	pub threads: u8,
 	pub iters: u8,
+	/// other artefacts generated concurrently on the same key objects by every third thread
+	#[serde(default)]
+	pub others: Vec<Art>,
 }
 
 pub fn check_threads(t: &ThreadCase, info: &mut CaseInfo) -> Result<(), String> {
@@ -221,16 +257,20 @@ pub fn check_threads(t: &ThreadCase, info: &mut CaseInfo) -> Result<(), String> 
 	let iters = (t.iters % 6 + 1) as usize;
 	info.nontrivial = info.nontrivial || threads >= 4;
 	info.class(format!("threads:{}", if threads >= 8 { ">=8" } else if threads >= 4 { "4-7" } else { "2-3" }));
+	let base = produce(&t.target, &env_for(&t.target)?)?;
 	let env = env_for(&t.target)?;
 	let before = snapshot(&env);
-	let base = produce(&t.target, &env)?;
 	let results: Vec<Result<Vec<Produced>, String>> = std::thread::scope(|s| {
 		let handles: Vec<_> = (0..threads)
-			.map(|_| {
-				s.spawn(|| {
+			.map(|ti| {
+				let env = &env;
+				s.spawn(move || {
 					let mut v = Vec::new();
-					for _ in 0..iters {
-						v.push(produce(&t.target, &env)?);
+					for it in 0..iters {
+						if ti % 3 == 2 && !t.others.is_empty() {
+							let _ = no_panic(|| produce_sharing_keys(&t.others[(ti + it) % t.others.len()], env));
+						}
+						v.push(produce(&t.target, env)?);
 					}
 					Ok(v)
 				})
@@ -318,7 +358,7 @@ pub fn def() -> PropertyDef {
 				(art(true), proptest::collection::vec(art(true), 0..6)).prop_map(|(target, prefix)| HistoryCase { target, prefix }).boxed()
 			}, check_history),
 			prop_sub("threads", 2_000, 60_000, || {
-				(art(true), any::<u8>(), any::<u8>()).prop_map(|(target, threads, iters)| ThreadCase { target, threads, iters }).boxed()
+				(art(true), any::<u8>(), any::<u8>(), proptest::collection::vec(art(true), 0..3)).prop_map(|(target, threads, iters, others)| ThreadCase { target, threads, iters, others }).boxed()
 			}, check_threads),
 			prop_sub("processes", 24, 600, || proptest::collection::vec(art(true), 20..40).prop_map(|arts| ProcessBatch { arts }).boxed(), check_processes),
 		],
